@@ -147,3 +147,496 @@ Proof.
     + simpl. rewrite map_id. apply NoDup_cart.
   - intros d a. cbv zeta. destruct (Qltb (jointp probs a) nonzero_atol); reflexivity.
 Qed.
+
+(* ---------- the full yields: distinct keys, each at least the threshold ---------- *)
+Fixpoint fulls (ys : list yield) : list (key * Q) :=
+  match ys with
+  | [] => []
+  | YFull s p :: r => (s, p) :: fulls r
+  | YCond _ _ :: r => fulls r
+  end.
+
+Lemma fulls_app a b : fulls (a ++ b) = fulls a ++ fulls b.
+Proof. induction a as [|[s p|s v] a IH]; simpl; congruence. Qed.
+
+Lemma fulls_In ys s p : In (s, p) (fulls ys) <-> In (YFull s p) ys.
+Proof.
+  induction ys as [|[s' p'|s' v] ys IH]; simpl; [tauto| |].
+  - rewrite IH. split; intros [E|I]; auto; left; congruence.
+  - rewrite IH. split; [auto|intros [E|I]; [discriminate|auto]].
+Qed.
+
+Lemma ymass_fulls ys : ymass ys == qsumf snd (fulls ys).
+Proof. unfold qsumf. induction ys as [|[s p|s v] ys IH]; simpl; try rewrite IH; reflexivity. Qed.
+
+Lemma nfull_fulls ys : nfull ys = length (fulls ys).
+Proof. induction ys as [|[s p|s v] ys IH]; simpl; lia. Qed.
+
+Lemma kids_nodup thr node prefix rp rest :
+  (forall pf r y, In y (fst (node pf r)) -> under pf rest y) ->
+  (forall pf r, NoDup (map fst (fulls (fst (node pf r))))) ->
+  forall l i, NoDup (map fst (fulls (fst (fst (kids thr node prefix rp i l))))).
+Proof.
+  intros Hu Hn l; induction l as [|p l' IH]; intros i; [simpl; constructor|].
+  rewrite kids_cons. destruct (Qltb (rp * p) thr); [simpl; constructor|].
+  pose proof (Hn (prefix ++ [i]) (rp * p)) as N1. pose proof (Hu (prefix ++ [i]) (rp * p)) as U1.
+  destruct (node (prefix ++ [i]) (rp * p)) as [ys s] eqn:En. cbn [fst] in N1, U1.
+  pose proof (IH (S i)) as N2.
+  pose proof (kids_under thr node prefix rp rest Hu l' (S i)) as U2.
+  destruct (kids thr node prefix rp (S i) l') as [[ys' tab] fnd] eqn:Ek. cbn [fst] in N2, U2.
+  assert (NoDup (map fst (fulls (ys ++ ys')))) as G.
+  { rewrite fulls_app, map_app. apply NoDup_app_intro; auto.
+    intros k I J. apply in_map_iff in I. destruct I as [[k1 p1] [E1 I1]]. simpl in E1; subst k1.
+    apply in_map_iff in J. destruct J as [[k2 p2] [E2 I2]]. simpl in E2; subst k2.
+    apply fulls_In in I1. apply fulls_In in I2.
+    destruct (U1 _ I1) as [c [E1 _]]. destruct (U2 _ I2) as [j [c' [R [E2 _]]]]. simpl in E1, E2.
+    rewrite E1, <- app_assoc in E2. apply app_inv_head in E2. simpl in E2. inversion E2. lia. }
+  destruct s; simpl; exact G.
+Qed.
+
+Lemma finish_fulls prefix ys tab fnd : fulls (fst (finish prefix (ys, tab, fnd))) = fulls ys.
+Proof.
+  unfold finish. destruct fnd; [|reflexivity]. destruct prefix; cbn [fst]; rewrite fulls_app; simpl.
+  - now rewrite app_nil_r.
+  - destruct (Qeq_bool _ 0); simpl; now rewrite app_nil_r.
+Qed.
+
+Lemma node_nodup thr bases : forall pf r, NoDup (map fst (fulls (fst (dfs_node thr bases pf r)))).
+Proof.
+  induction bases as [|cur rest IH]; intros pf r.
+  - simpl. constructor; [tauto|constructor].
+  - rewrite dfs_node_cons.
+    pose proof (kids_nodup thr (dfs_node thr rest) pf r rest (node_under thr rest) IH cur 0%nat) as K.
+    destruct (kids thr (dfs_node thr rest) pf r 0%nat cur) as [[ys tab] fnd]. cbn [fst] in K.
+    now rewrite finish_fulls.
+Qed.
+
+Lemma node_full_thr thr bases pf r : thr <= r ->
+  Forall (fun sp => thr <= snd sp) (fulls (fst (dfs_node thr bases pf r))).
+Proof.
+  intros T. rewrite Forall_forall. intros [s p] I. apply fulls_In in I.
+  pose proof (node_full thr bases pf r _ T I) as F. simpl in F. destruct F as [c [_ [_ [_ [_ Tp]]]]]. exact Tp.
+Qed.
+
+(* ---------- through the permutation wrapper ---------- *)
+Lemma unperm_inj probs : forall perms c c', sorting_perms_b probs perms = true ->
+  idx_ok (sorted_probs probs perms) c -> idx_ok (sorted_probs probs perms) c' -> length c = length c' ->
+  unperm_state perms c = unperm_state perms c' -> c = c'.
+Proof.
+  induction probs as [|v rv IH]; intros [|p rp] c c' H O O' L E; simpl in H; try discriminate.
+  - destruct c, c'; simpl in *; try tauto; discriminate.
+  - apply andb_prop in H as [H1 H2].
+    change (sorted_probs (v :: rv) (p :: rp)) with (apply_perm p v :: sorted_probs rv rp) in *.
+    destruct c as [|i c], c' as [|i' c']; try discriminate; auto.
+    simpl in O, O', L. destruct O as [Hi O], O' as [Hi' O']. rewrite apply_perm_length in Hi, Hi'.
+    change (unperm_state (p :: rp) (i :: c)) with (nth i p 0%nat :: unperm_state rp c) in E.
+    change (unperm_state (p :: rp) (i' :: c')) with (nth i' p 0%nat :: unperm_state rp c') in E.
+    inversion E as [[E1 E2]].
+    destruct (sorting_perm_facts _ _ H1) as [Lp [Sp _]].
+    destruct (perm_facts2 v p Lp Sp) as [ND _].
+    f_equal.
+    + apply (proj1 (NoDup_nth p 0%nat) ND); auto.
+    + apply (IH rp); auto; lia.
+Qed.
+
+Lemma NoDup_map_inj_on {A B} (f : A -> B) l :
+  (forall x y, In x l -> In y l -> f x = f y -> x = y) -> NoDup l -> NoDup (map f l).
+Proof.
+  induction l as [|a l IH]; intros Inj N; simpl; [constructor|].
+  inversion N; subst. constructor.
+  - intros I. apply in_map_iff in I. destruct I as [y [E Iy]].
+    assert (y = a) by (apply Inj; [now right|now left|exact E]). subst. contradiction.
+  - apply IH; auto. intros x y Ix Iy. apply Inj; now right.
+Qed.
+
+Lemma fulls_unperm perms ys :
+  fulls (map (unperm_yield perms) ys) = map (fun sp => (unperm_state perms (fst sp), snd sp)) (fulls ys).
+Proof. induction ys as [|[s p|s v] ys IH]; simpl; congruence. Qed.
+
+Lemma gen_unsorted_fulls probs perms thr : sorting_perms_b probs perms = true -> thr <= 1 ->
+  NoDup (map fst (fulls (gen_unsorted probs perms thr))) /\
+  Forall (fun sp => thr <= snd sp) (fulls (gen_unsorted probs perms thr)) /\
+  ymass (gen_unsorted probs perms thr) == ymass (dfs_spec (sorted_probs probs perms) thr).
+Proof.
+  intros S T. unfold gen_unsorted. rewrite fulls_unperm. split; [|split].
+  - rewrite map_map. simpl.
+    rewrite <- (map_map fst (unperm_state perms)).
+    apply NoDup_map_inj_on; [|apply node_nodup].
+    intros k k' I I' E.
+    apply in_map_iff in I. destruct I as [[k1 p1] [E1 I1]]. simpl in E1; subst k1.
+    apply in_map_iff in I'. destruct I' as [[k2 p2] [E2 I2]]. simpl in E2; subst k2.
+    apply fulls_In in I1. apply fulls_In in I2. unfold dfs_spec in I1, I2.
+    destruct (node_under thr _ [] 1 _ I1) as [c [Ec [Oc Lc]]]. destruct (node_under thr _ [] 1 _ I2) as [c' [Ec' [Oc' Lc']]].
+    simpl in Ec, Ec', Lc, Lc'. subst c c'.
+    apply (unperm_inj probs perms); auto. lia.
+  - rewrite Forall_forall. intros [s p] I. apply in_map_iff in I. destruct I as [[s' p'] [E I]].
+    inversion E; subst. pose proof (node_full_thr thr (sorted_probs probs perms) [] 1 T) as F.
+    rewrite Forall_forall in F. apply (F _ I).
+  - rewrite !ymass_fulls, fulls_unperm. unfold qsumf. rewrite map_map. simpl. reflexivity.
+Qed.
+
+Lemma kids_tab_length thr node prefix rp : forall l i, length (snd (fst (kids thr node prefix rp i l))) = length l.
+Proof.
+  induction l as [|p l' IH]; intros i; [reflexivity|]. rewrite kids_cons.
+  destruct (Qltb (rp * p) thr); [reflexivity|].
+  destruct (node (prefix ++ [i]) (rp * p)) as [ys s]. specialize (IH (S i)).
+  destruct (kids thr node prefix rp (S i) l') as [[ys' tab] fnd]. simpl in IH.
+  destruct s; simpl; now rewrite IH.
+Qed.
+
+(* ---------- retval as a list ---------- *)
+Lemma ret_step_fulls q ys : forall ret,
+  fold_left (ret_step q) ys ret = fold_left (fun d sp => dset d (fst sp) (snd sp * q, EXACT)) (fulls ys) ret.
+Proof. induction ys as [|[s p|s v] ys IH]; intros ret; simpl; auto. Qed.
+
+Lemma ret_list q ys : NoDup (map fst (fulls ys)) ->
+  fold_left (ret_step q) ys [] = map (fun sp => (fst sp, (snd sp * q, EXACT))) (fulls ys).
+Proof.
+  intros N. rewrite ret_step_fulls.
+  change (fold_left (fun d sp => if (fun _ : key * Q => true) sp then dset d (fst sp) (snd sp * q, EXACT) else d)
+            (fulls ys) [] = map (fun sp => (fst sp, (snd sp * q, EXACT))) (fulls ys)).
+  rewrite (fold_dset_fresh (@fst key Q) (fun sp => (snd sp * q, EXACT)) (fun _ => true)) by exact N.
+  simpl. f_equal. clear N. induction (fulls ys) as [|a l IH]; simpl; congruence.
+Qed.
+
+Lemma wsum_ret q l : wsum (map (fun sp : key * Q => (fst sp, (snd sp * q, EXACT))) l) == q * qsumf snd l.
+Proof. unfold wsum, qsumf. induction l as [|a l IH]; simpl; [ring|rewrite IH; ring]. Qed.
+
+(* ---------- sums are invariant under the inverse permutation ---------- *)
+Lemma qsum_perm a b : Permutation a b -> qsum a == qsum b.
+Proof. induction 1; simpl; try lra. Qed.
+
+Lemma unperm_vec_perm (v : list Q) perm : length perm = length v -> (forall j, (j < length v)%nat -> In j perm) ->
+  Permutation v (unperm_vec perm v).
+Proof.
+  intros L S. destruct (perm_facts2 v perm L S) as [ND B].
+  set (f := fun j => match index_of j perm with Some k => nth k v 0 | None => 0 end).
+  assert (map f perm = v) as E.
+  { apply (nth_ext _ _ 0 0); [rewrite map_length; exact L|].
+    intros k Hk. rewrite map_length in Hk.
+    rewrite (nth_indep _ 0 (f 0%nat)) by (rewrite map_length; exact Hk).
+    rewrite map_nth. unfold f. now rewrite index_of_nth_NoDup. }
+  rewrite <- E at 1. unfold unperm_vec. fold f. apply Permutation_map.
+  apply NoDup_Permutation; auto; [apply seq_NoDup|].
+  intros x. rewrite in_seq. split.
+  - intros I. destruct (In_nth _ _ 0%nat I) as [k [Hk <-]]. specialize (B k Hk). lia.
+  - intros [_ H]. apply S. lia.
+Qed.
+
+(* ---------- weight_to_sample ---------- *)
+Lemma absorb_w_keep D q ys : (forall y, In y ys -> ystate y <> []) ->
+  forall ret cond w, snd (fold_left (absorb D q) ys (ret, cond, w)) = w.
+Proof.
+  induction ys as [|y ys IH]; intros H ret cond w; [reflexivity|].
+  cbn [fold_left]. assert (forall y, In y ys -> ystate y <> []) as H' by (intros; apply H; now right).
+  pose proof (H y (or_introl eq_refl)) as Hy.
+  destruct y as [s p|s v]; simpl in *.
+  - apply IH; auto.
+  - destruct s; [contradiction|]. apply IH; auto.
+Qed.
+
+Lemma spec_shape thr cur rest :
+  let k := kids thr (dfs_node thr rest) [] 1 0%nat cur in
+  dfs_node thr (cur :: rest) [] 1 =
+    (if snd k then (fst (fst k) ++ [YCond [] (map zero_small (snd (fst k)))], SubNorm (qsum (map zero_small (snd (fst k)))))
+     else (fst (fst k), SubNone)) /\
+  forall y, In y (fst (fst k)) -> ystate y <> [].
+Proof.
+  cbv zeta. split.
+  - rewrite dfs_node_cons. destruct (kids thr (dfs_node thr rest) [] 1 0%nat cur) as [[ys tab] fnd]. simpl.
+    destruct fnd; reflexivity.
+  - intros y I. pose proof (kids_under thr (dfs_node thr rest) [] 1 rest (node_under thr rest) cur 0%nat y I) as [j [c [_ [E _]]]].
+    rewrite E. simpl. discriminate.
+Qed.
+
+Lemma fold_left_snoc {A B} (f : A -> B -> A) l x a : fold_left f (l ++ [x]) a = f (fold_left f l a) x.
+Proof. now rewrite fold_left_app. Qed.
+
+(* the state after the for-loop over the generator, expressed on the specification's result *)
+Lemma dfs_loop_result probs perms q : sorting_perms_b probs perms = true -> probs <> [] -> 1 / q <= 1 ->
+  forall ret cond wts0,
+  fold_left (absorb (length probs) q) (gen_unsorted probs perms (1 / q)) (([] : wdict), ([] : list (key * list Q)), 1)
+    = (ret, cond, wts0) ->
+  wsum ret == q * ymass (dfs_spec (sorted_probs probs perms) (1 / q)) /\
+  length ret = nfull (dfs_spec (sorted_probs probs perms) (1 / q)) /\
+  wts0 == resid (snd (dfs_node (1 / q) (sorted_probs probs perms) [] 1)).
+Proof.
+  intros S Ne T ret cond wts0 E.
+  destruct (gen_unsorted_fulls probs perms (1 / q) S T) as [ND [_ Ym]].
+  assert (ret = fold_left (ret_step q) (gen_unsorted probs perms (1 / q)) []) as Er.
+  { transitivity (fst (fst (fold_left (absorb (length probs) q) (gen_unsorted probs perms (1 / q))
+                                  (([] : wdict), ([] : list (key * list Q)), 1)))).
+    - now rewrite E.
+    - apply absorb_ret. }
+  split; [|split].
+  - rewrite Er, ret_list by exact ND. rewrite wsum_ret, <- ymass_fulls, Ym. reflexivity.
+  - rewrite Er, ret_list by exact ND. rewrite map_length, <- nfull_fulls.
+    unfold gen_unsorted. rewrite !nfull_fulls, fulls_unperm, map_length. reflexivity.
+  - assert (wts0 = snd (fold_left (absorb (length probs) q) (gen_unsorted probs perms (1 / q))
+                          (([] : wdict), ([] : list (key * list Q)), 1))) as -> by now rewrite E.
+    clear E Er ret cond.
+    destruct probs as [|v rv]; [contradiction|]. destruct perms as [|p rp]; [discriminate|].
+    pose proof S as S'. simpl in S'. apply andb_prop in S' as [S1 S2].
+    unfold gen_unsorted, dfs_spec.
+    change (sorted_probs (v :: rv) (p :: rp)) with (apply_perm p v :: sorted_probs rv rp).
+    destruct (spec_shape (1 / q) (apply_perm p v) (sorted_probs rv rp)) as [Sh Nt]. rewrite Sh.
+    set (k := kids (1 / q) (dfs_node (1 / q) (sorted_probs rv rp)) [] 1 0%nat (apply_perm p v)) in *.
+    assert (forall y, In y (map (unperm_yield (p :: rp)) (fst (fst k))) -> ystate y <> []) as Nt'.
+    { intros y I. apply in_map_iff in I. destruct I as [y0 [<- I0]]. specialize (Nt y0 I0).
+      destruct y0 as [s pp|s vv]; simpl in *; destruct s; try contradiction; discriminate. }
+    destruct (snd k) eqn:Ef; cbn [fst snd resid].
+    + rewrite map_app. cbn [map]. rewrite fold_left_snoc.
+      destruct (sorting_perm_facts _ _ S1) as [Lp [Sp _]].
+      assert (length (map zero_small (snd (fst k))) = length p) as Lt.
+      { rewrite map_length. unfold k. now rewrite kids_tab_length, apply_perm_length. }
+      match goal with |- context [fold_left ?f ?l ?a] => destruct (fold_left f l a) as [[r1 c1] w1] end.
+      cbn [unperm_yield unperm_state map2 absorb snd length nth].
+      symmetry. apply qsum_perm. apply unperm_vec_perm; [now rewrite Lt|].
+      intros j Hj. apply Sp. lia.
+    + rewrite absorb_w_keep by exact Nt'. reflexivity.
+Qed.
+
+(* ---------- the accumulator after the generator loop: conservation ---------- *)
+Lemma apply_perm_perm (v : list Q) perm : length perm = length v -> (forall j, (j < length v)%nat -> In j perm) ->
+  Permutation (apply_perm perm v) v.
+Proof.
+  intros L S. destruct (perm_facts2 v perm L S) as [ND B].
+  assert (map (fun j => nth j v 0) (seq 0 (length v)) = v) as E.
+  { apply (nth_ext _ _ 0 0); [now rewrite map_length, seq_length|].
+    intros k Hk. rewrite map_length, seq_length in Hk. now rewrite nth_seq_map. }
+  rewrite <- E at 2. unfold apply_perm. apply Permutation_map.
+  apply NoDup_Permutation; auto; [apply seq_NoDup|].
+  intros x. rewrite in_seq. split.
+  - intros I. destruct (In_nth _ _ 0%nat I) as [k [Hk <-]]. specialize (B k Hk). lia.
+  - intros [_ H]. apply S. lia.
+Qed.
+
+Lemma sorted_vec_ok probs : forall perms, valid probs -> sorting_perms_b probs perms = true ->
+  Forall vec_ok (sorted_probs probs perms) /\ tree_size (sorted_probs probs perms) = tree_size probs.
+Proof.
+  induction probs as [|v rv IH]; intros [|p rp] V S; simpl in S; try discriminate; [split; [constructor|reflexivity]|].
+  apply andb_prop in S as [S1 S2]. inversion V as [|? ? [Nv Sv] Vr]; subst.
+  destruct (IH rp Vr S2) as [A B]. destruct (sorting_perm_facts _ _ S1) as [Lp [Sp _]].
+  change (sorted_probs (v :: rv) (p :: rp)) with (apply_perm p v :: sorted_probs rv rp). split.
+  - constructor; auto. split.
+    + unfold nonneg, apply_perm. rewrite Forall_forall. intros x I. apply in_map_iff in I. destruct I as [j [<- _]].
+      now apply nth_nonneg.
+    + rewrite (qsum_perm _ _ (apply_perm_perm v p Lp Sp)). exact Sv.
+  - simpl. rewrite B, apply_perm_length, Lp. reflexivity.
+Qed.
+
+Lemma fulls_thr_count thr (l : list (key * Q)) : Forall (fun sp => thr <= snd sp) l -> thr * nq (length l) <= qsumf snd l.
+Proof.
+  unfold qsumf. induction 1 as [|a l Ha Hl IH]; simpl.
+  - assert (nq 0 == 0) as -> by reflexivity. lra.
+  - change (nq (Datatypes.S (length l))) with (nq (S (length l))). rewrite nq_S. lra.
+Qed.
+
+Lemma dfs_acc_mass probs perms q ret cond wts0 :
+  valid probs -> sorting_perms_b probs perms = true -> 1 <= q -> probs <> [] ->
+  dfs_acc probs perms q = (ret, cond, wts0) ->
+  exists lost, 0 <= lost /\ lost <= nonzero_atol * nq (tree_size probs) /\
+    wsum ret + q * wts0 + q * lost == q /\ 0 <= wts0 /\ nq (length ret) <= wsum ret /\
+    (clr (raw_tables (sorted_probs probs perms) (1 / q)) -> lost == 0).
+Proof.
+  intros V S Hq Ne E. destruct (thr_facts q Hq) as [T0 T1]. unfold dfs_acc in E.
+  destruct (Qle_bool (1 / q) (qprod (map qmax probs))).
+  - destruct (dfs_loop_result probs perms q S Ne T1 ret cond wts0 E) as [Hw [Hl Hr]].
+    destruct (sorted_vec_ok probs perms V S) as [Vs Ts].
+    destruct (node_mass_all (1 / q) (sorted_probs probs perms) Vs [] 1) as [lost [L0 [LB [Em [R0 Cl]]]]]; [lra|].
+    exists lost. rewrite Ts in LB. split; auto. split; auto. split; [|split; [now rewrite Hr|split; [|exact Cl]]].
+    + rewrite Hw, Hr. unfold dfs_spec.
+      transitivity (q * (ymass (fst (dfs_node (1 / q) (sorted_probs probs perms) [] 1)) +
+                         1 * resid (snd (dfs_node (1 / q) (sorted_probs probs perms) [] 1)) + 1 * lost)); [ring|].
+      rewrite Em. ring.
+    + rewrite Hw, Hl, nfull_fulls, ymass_fulls.
+      pose proof (fulls_thr_count (1 / q) _ (node_full_thr (1 / q) (sorted_probs probs perms) [] 1 T1)) as C.
+      unfold dfs_spec.
+      assert (q * (1 / q * nq (length (fulls (fst (dfs_node (1 / q) (sorted_probs probs perms) [] 1)))))
+              == nq (length (fulls (fst (dfs_node (1 / q) (sorted_probs probs perms) [] 1))))) as <-.
+      { field. lra. }
+      apply Qmult_le_l_nonneg; [lra|exact C].
+  - inversion E; subst. exists 0. pose proof atol_pos. pose proof (nq_nonneg (tree_size probs)).
+    assert (wsum [] == 0) as W0 by reflexivity. assert (nq (length (@nil (key * (Q * wtype)))) == 0) as N0 by reflexivity.
+    split; [lra|]. split; [nra|]. split; [rewrite W0; ring|]. split; [lra|]. split; [rewrite W0, N0; lra|reflexivity].
+Qed.
+
+(* ---------- counts of the sampler ---------- *)
+Definition csum {A} (s : list (A * nat)) : nat := fold_right (fun kc a => (snd kc + a)%nat) 0%nat s.
+
+Lemma csum_app {A} (a b : list (A * nat)) : csum (a ++ b) = (csum a + csum b)%nat.
+Proof. induction a as [|x a IH]; simpl; lia. Qed.
+
+Lemma cnt_add_csum {A} (eqb : A -> A -> bool) : forall c x,
+  csum (cnt_add eqb c x) = S (csum c) /\
+  (Forall (fun kc => (1 <= snd kc)%nat) c -> Forall (fun kc => (1 <= snd kc)%nat) (cnt_add eqb c x)).
+Proof.
+  induction c as [|[y n] c IH]; intros x; simpl.
+  - split; [reflexivity|intros _; repeat constructor].
+  - destruct (eqb x y); simpl.
+    + split; [lia|]. intros F. inversion F; subst. constructor; auto. simpl in *. lia.
+    + destruct (IH x) as [HA HB]. split; [lia|]. intros F. inversion F; subst. constructor; auto.
+Qed.
+
+Lemma counter_csum {A} (eqb : A -> A -> bool) l :
+  csum (counter eqb l) = length l /\ Forall (fun kc => (1 <= snd kc)%nat) (counter eqb l).
+Proof.
+  unfold counter.
+  assert (forall l c, Forall (fun kc => (1 <= snd kc)%nat) c ->
+            csum (fold_left (cnt_add eqb) l c) = (length l + csum c)%nat /\
+            Forall (fun kc => (1 <= snd kc)%nat) (fold_left (cnt_add eqb) l c)) as G.
+  { clear l. induction l as [|x l IH]; intros c F; simpl; [split; auto|].
+    destruct (cnt_add_csum eqb c x) as [HA HB]. destruct (IH _ (HB F)) as [HC HD]. split; [lia|auto]. }
+  destruct (G l [] (Forall_nil _)) as [HA HB]. simpl in HA. split; [lia|auto].
+Qed.
+
+Lemma csum_map_key {A B} (f : A -> B) (s : list (A * nat)) : csum (map (fun oc => (f (fst oc), snd oc)) s) = csum s.
+Proof. induction s as [|x s IH]; simpl; congruence. Qed.
+
+Lemma Forall_map_key {A B} (f : A -> B) (s : list (A * nat)) :
+  Forall (fun kc => (1 <= snd kc)%nat) s -> Forall (fun kc => (1 <= snd kc)%nat) (map (fun oc => (f (fst oc), snd oc)) s).
+Proof. induction 1; simpl; constructor; auto. Qed.
+
+Definition counts_ok (s : list (key * nat)) (n : nat) : Prop := csum s = n /\ Forall (fun kc => (1 <= snd kc)%nat) s.
+
+Lemma pop_loop_counts rec full rs :
+  (full = false -> forall k c t s t' lg, rec k c t = Some (s, t', lg) -> counts_ok s c) ->
+  forall ocs t s t' lg, Forall (fun oc => (1 <= snd oc)%nat) ocs ->
+    pop_loop rec full rs ocs t = Some (s, t', lg) -> counts_ok s (csum ocs).
+Proof.
+  intros Hrec. induction ocs as [|[o c] more IH]; intros t s t' lg F H; simpl in H.
+  - inversion H; subst. split; [reflexivity|constructor].
+  - inversion F as [|? ? Fc Fm]; subst. simpl in Fc. destruct full.
+    + destruct (pop_loop rec true rs more t) as [[[acc t2] lg2]|] eqn:R; [|discriminate]. inversion H; subst.
+      destruct (IH _ _ _ _ Fm R) as [A B]. split; [simpl; lia|constructor; auto].
+    + destruct (rec (rs ++ [o]) c t) as [[[s1 t2] lg1]|] eqn:R1; [|discriminate].
+      destruct (pop_loop rec false rs more t2) as [[[s2 t3] lg2]|] eqn:R2; [|discriminate]. inversion H; subst.
+      destruct (Hrec eq_refl _ _ _ _ _ _ R1) as [A1 B1]. destruct (IH _ _ _ _ Fm R2) as [A2 B2].
+      split; [rewrite csum_app; simpl; lia|apply Forall_app; auto].
+Qed.
+
+Lemma populate_counts cond : forall rest rs nd tape s t lg, rest <> [] ->
+  populate rest cond rs nd tape = Some (s, t, lg) -> counts_ok s nd.
+Proof.
+  induction rest as [|indep rest' IH]; intros rs nd tape s t lg Ne H; [contradiction|].
+  cbn [populate] in H. destruct (dget cond rs) as [v|].
+  - destruct (draw v nd tape) as [[outs t1]|] eqn:D; [|discriminate].
+    destruct (pop_loop (fun rs' c t0 => populate rest' cond rs' c t0)
+                (match rest' with [] => true | _ :: _ => false end) rs (counter Nat.eqb outs) t1)
+      as [[[s0 t0] lg0]|] eqn:R; [|discriminate]. inversion H; subst.
+    destruct (counter_csum Nat.eqb outs) as [Cs Cf].
+    destruct (draw_spec_len v nd tape outs t1 D) as [L _].
+    rewrite <- L, <- Cs.
+    eapply pop_loop_counts; [|exact Cf|exact R].
+    intros Ef k c t2 s2 t2' lg2 R2. eapply IH; [|exact R2]. destruct rest'; [discriminate|discriminate].
+  - destruct (take_cols (indep :: rest') nd tape) as [[[cols t1] lg1]|] eqn:T; [|discriminate]. inversion H; subst.
+    destruct (counter_csum key_eqb (rows nd cols)) as [Cs Cf].
+    split; [|now apply (Forall_map_key (fun k : key => rs ++ k))].
+    rewrite (csum_map_key (fun k : key => rs ++ k)), Cs.
+    destruct cols as [|c0 cols'].
+    + simpl in T. destruct (draw indep nd tape) as [[c t2]|]; [|discriminate].
+      destruct (take_cols rest' nd t2) as [[[cs t3] lg3]|]; discriminate.
+    + unfold rows. now rewrite map_length, seq_length.
+Qed.
+
+(* ---------- inserting the samples ---------- *)
+Lemma wsum_snoc d k w t : wsum (d ++ [(k, (w, t))]) == wsum d + w.
+Proof. rewrite wsum_app. unfold wsum. simpl. ring. Qed.
+
+Lemma insert_samples_sum ssw : forall s ret r, insert_samples ret ssw s = Some r ->
+  wsum r == wsum ret + ssw * nq (csum s) /\ length r = (length ret + length s)%nat.
+Proof.
+  induction s as [|[k c] s IH]; intros ret r H; simpl in H.
+  - inversion H; subst. assert (nq (csum (@nil (key * nat))) == 0) as -> by reflexivity. split; [ring|simpl; lia].
+  - destruct (dmem ret k) eqn:M; [discriminate|].
+    assert (dget ret k = None) as G by (unfold dmem in M; destruct (dget ret k); [discriminate|reflexivity]).
+    rewrite (dset_fresh _ _ _ G) in H. destruct (IH _ _ H) as [A B]. split.
+    + rewrite A, wsum_snoc. simpl csum. unfold nq. rewrite Nat2Z.inj_add, inject_Z_plus. ring.
+    + rewrite B, app_length. simpl. lia.
+Qed.
+
+Lemma counts_length (s : list (key * nat)) : Forall (fun kc => (1 <= snd kc)%nat) s -> (length s <= csum s)%nat.
+Proof. induction 1; simpl; lia. Qed.
+
+(* ---------- ceilings ---------- *)
+Lemma ceil_add_le (n : nat) (w q : Q) : nq n + w <= q -> (Z.of_nat n + Qceiling w <= Qceiling q)%Z.
+Proof.
+  intros H. pose proof (Qceiling_lt w) as L. pose proof (Qle_ceiling q) as U.
+  assert (inject_Z (Z.of_nat n + Qceiling w - 1) < inject_Z (Qceiling q)) as X.
+  { replace (Z.of_nat n + Qceiling w - 1)%Z with (Z.of_nat n + (Qceiling w - 1))%Z by lia.
+    rewrite inject_Z_plus. fold (nq n). lra. }
+  rewrite <- Zlt_Qlt in X. lia.
+Qed.
+
+Lemma ceil_le_zero w : (Qceiling w < 1)%Z -> w <= 0.
+Proof.
+  intros H. pose proof (Qle_ceiling w) as U.
+  assert (inject_Z (Qceiling w) <= inject_Z 0) as X by (rewrite <- Zle_Qle; lia).
+  change (inject_Z 0) with 0 in X. lra.
+Qed.
+
+Lemma nq_le_ceil (n : nat) q : nq n <= q -> (Z.of_nat n <= Qceiling q)%Z.
+Proof.
+  intros H. pose proof (ceil_add_le n 0 q) as X.
+  assert (Qceiling 0 = 0%Z) as E by reflexivity. rewrite E in X. assert (nq n + 0 <= q) as Y by lra. specialize (X Y). lia.
+Qed.
+
+(* ---------- the all-exact branch ---------- *)
+Lemma fold_min_le : forall r x y, In y (x :: r) -> fold_left (fun a b => if Qltb b a then b else a) r x <= y.
+Proof.
+  induction r as [|b r IH]; intros x y I; simpl.
+  - destruct I as [->|[]]. lra.
+  - destruct (Qltb b x) eqn:E.
+    + apply Qltb_lt in E. destruct I as [<-|[<-|I]].
+      * pose proof (IH b b (or_introl eq_refl)). lra.
+      * apply IH. now left.
+      * apply IH. now right.
+    + apply Qltb_ge in E. destruct I as [<-|[<-|I]].
+      * apply IH. now left.
+      * pose proof (IH x x (or_introl eq_refl)). lra.
+      * apply IH. now right.
+Qed.
+
+Lemma min_filter_le v m x : min_filter_nonzero v = Some m -> In x v -> nonzero_atol < x -> m <= x.
+Proof.
+  unfold min_filter_nonzero. intros H I B.
+  assert (In x (filter (fun x => negb (isclose0 x)) v)) as If.
+  { apply filter_In. split; auto. now rewrite isclose0_big. }
+  destruct (filter (fun x => negb (isclose0 x)) v) as [|a r]; [destruct If|].
+  inversion H; subst. now apply fold_min_le.
+Qed.
+
+Lemma jointp_ge_mins probs : forall mins ids,
+  all_some (map min_filter_nonzero probs) = Some mins -> Forall nonneg probs ->
+  idx_ok probs ids -> length ids = length probs ->
+  (forall k, (k < length ids)%nat -> nonzero_atol < nth (nth k ids 0%nat) (nth k probs []) 0) ->
+  0 <= qprod mins /\ qprod mins <= jointp probs ids.
+Proof.
+  induction probs as [|v r IH]; intros mins ids E N O L B; simpl in E.
+  - inversion E; subst. destruct ids; [|discriminate]. simpl. lra.
+  - destruct (min_filter_nonzero v) as [m|] eqn:Em; [|discriminate].
+    destruct (all_some (map min_filter_nonzero r)) as [ms|] eqn:Es; [|discriminate]. simpl in E. inversion E; subst.
+    destruct ids as [|j c]; [discriminate|]. simpl in O, L. destruct O as [Hj O]. inversion N as [|? ? Nv Nr]; subst.
+    destruct (IH ms c eq_refl Nr O) as [P0 P1]; [lia| |].
+    { intros k Hk. apply (B (S k)). simpl. lia. }
+    pose proof (B 0%nat) as B0. simpl in B0. specialize (B0 ltac:(lia)).
+    assert (m <= nth j v 0) as Mle by (eapply min_filter_le; eauto; now apply nth_In).
+    assert (0 <= m).
+    { unfold min_filter_nonzero in Em. destruct (filter _ v) as [|a rr] eqn:Ef; [discriminate|]. inversion Em; subst.
+      pose proof (fold_min_in rr a) as I. rewrite <- Ef in I. apply filter_In in I. destruct I as [I _].
+      unfold nonneg in Nv. rewrite Forall_forall in Nv. now apply Nv. }
+    simpl. split; nra.
+Qed.
+
+Lemma clean_pos_big probs : Forall (Forall band_free) probs -> Forall nonneg probs ->
+  forall ids, idx_ok probs ids -> length ids = length probs -> 0 < jointp probs ids ->
+  forall k, (k < length ids)%nat -> nonzero_atol < nth (nth k ids 0%nat) (nth k probs []) 0.
+Proof.
+  induction probs as [|v r IH]; intros C N ids O L P k Hk; destruct ids as [|j c]; simpl in *; try lia.
+  destruct O as [Hj O]. inversion C as [|? ? Cv Cr]; subst. inversion N as [|? ? Nv Nr]; subst.
+  pose proof (nth_nonneg v j Nv) as Nj.
+  destruct (jointp_unit_nonneg r c Nr) as Jn.
+  destruct k as [|k].
+  - rewrite Forall_forall in Cv. destruct (Cv (nth j v 0) (nth_In _ _ Hj)) as [Z|B]; auto. rewrite Z in P. lra.
+  - apply IH; auto; try lia. destruct (Qlt_le_dec 0 (jointp r c)); auto. nra.
+Qed.
